@@ -989,6 +989,27 @@ def write_evidence(pid, tier, seed, spec, results, counts, nviol, wall, known_hi
 def run_replay(pid, path):
     rp = json.load(open(path))
     build_harness()
+    if rp['input'].get('spaces_case') or rp['input'].get('python'):
+        # these engines are cheap: re-run them on the current tree and look for the same label on
+        # the same case / scenario
+        eng = 'spaces' if rp['input'].get('spaces_case') else 'py'
+        r = spaces_engine(rp['input'].get('tier', 'quick'), rp['input'].get('seed', 1)) if eng == 'spaces' \
+            else py_engine(rp['input'].get('tier', 'quick'), rp['input'].get('seed', 1))
+        def same(v):
+            if v['label'] != rp['label']:
+                return False
+            if eng == 'spaces':
+                a, b = v['input']['spaces_case'], rp['input']['spaces_case']
+                return a.get('sp') == b.get('sp') and a.get('op') == b.get('op')
+            return v['input']['scenario'].get('id') == rp['input']['scenario'].get('id')
+        hits = [v for v in r['violations'] if same(v)]
+        for v in hits[:3]:
+            print('monitor:', v['label'], json.dumps(v['input'])[:400])
+        if hits:
+            print(f"VIOLATION property={pid} replay={path}")
+            return 1
+        print('replay: the violation does not reproduce on the current tree')
+        return 0
     work = os.path.join(BUILD, 'work', 'replay')
     shutil.rmtree(work, ignore_errors=True)
     os.makedirs(work)
